@@ -1156,8 +1156,128 @@ pub fn run_c13(tier: &str, seed: u64, shard: usize, of: usize, only_job: Option<
             c13_compare(spec, depth, 200_000 + i, &how, &s_log, &s_table, &f_log, None, &mut distinct_cuts);
         }
     }
+    // Warm pass: in a game the cache is never empty. A deeper search of the position two plies
+    // earlier fills it, the engine's move and a reply chosen by the opponent (not necessarily the
+    // expected one) are played, and the search of the new position starts from THAT table. The
+    // reference is the uninterrupted search from the same table (restored before every run).
+    let warm_positions = (if thorough { 480 } else { 64 } + of - 1) / of;
+    let mut warm_done = 0;
+    for (i, spec) in specs.iter().enumerate().rev() {
+        if warm_done >= warm_positions || only_job.is_some() {
+            break;
+        }
+        if i % of != shard {
+            continue;
+        }
+        if started.elapsed().as_secs() > time_cap {
+            out::inconclusive("C13 warm-pass positions not started because the time cap was reached", 1);
+            break;
+        }
+        let Ok((b, _)) = spec.build() else { continue };
+        if c13_warm(&b, spec, 300_000 + i, &mut rng, thorough, &mut distinct_cuts) {
+            warm_done += 1;
+        }
+    }
     out::count("C13.nontrivial", distinct_cuts);
     Ok(())
+}
+
+fn restore_tt(table: &crate::board::transposition_table::TranspositionTable) {
+    TRANSPOSITION_TABLE.write().unwrap_or_else(std::sync::PoisonError::into_inner).clone_from(table);
+}
+
+fn c13_warm(b: &Board, spec: &PosSpec, job: usize, rng: &mut Rng, thorough: bool, distinct_cuts: &mut u64) -> bool {
+    clear_tt();
+    let prep = engine_search(b, None, Some(4));
+    if prep.panicked.is_some() || prep.nodes > 300_000 {
+        return false;
+    }
+    let Some(best) = prep.best.clone() else { return false };
+    let mut b1 = b.clone();
+    let Some(mv) = b1.get_legal_moves().into_iter().find(|m| m.to_string() == best) else { return false };
+    b1.make_move(mv);
+    let replies = b1.get_legal_moves();
+    if replies.is_empty() {
+        return false;
+    }
+    let reply = *rng.pick(&replies);
+    let mut b2 = b1.clone();
+    b2.make_move(reply);
+    if b2.get_legal_moves().is_empty() {
+        return false;
+    }
+    let warm = TRANSPOSITION_TABLE.read().unwrap_or_else(std::sync::PoisonError::into_inner).clone();
+    let depth = 3u8;
+    restore_tt(&warm);
+    verif_hooks::tt_record_start();
+    let full = engine_search(&b2, None, Some(depth));
+    let f_log = verif_hooks::tt_record_take();
+    if full.panicked.is_some() || full.nodes < 30 || full.nodes > 60_000 || f_log.len() < 3 {
+        return false;
+    }
+    // the reference must repeat itself from the same table
+    restore_tt(&warm);
+    verif_hooks::tt_record_start();
+    let again = engine_search(&b2, None, Some(depth));
+    let a_log = verif_hooks::tt_record_take();
+    if again.nodes != full.nodes || a_log.len() != f_log.len() || a_log.iter().zip(&f_log).any(|(x, y)| ev_sig(x) != ev_sig(y)) {
+        out::inconclusive("C13 warm pass: the uninterrupted search does not repeat itself from the same table", 1);
+        return false;
+    }
+    out::count("C13.warm_table_positions", 1);
+    out::set_max("C13.max_entries_in_a_warm_table", warm.len() as u64);
+    let provisional = provisional_writes(&f_log);
+    let budgets = if thorough { 900 } else { 400 };
+    let stride = (full.nodes / budgets).max(1);
+    let mut n = 1 + rng.below(stride);
+    while n <= full.nodes {
+        restore_tt(&warm);
+        verif_hooks::tt_record_start();
+        let r = engine_search(&b2, Some(SearchLimits::new().nodes(Some(n))), Some(depth));
+        let s_log = verif_hooks::tt_record_take();
+        if r.panicked.is_some() {
+            out::count("C13.interrupted_searches_that_panicked", 1);
+        }
+        out::count("C13.evaluations", 1);
+        out::count("C13.warm_table_cuts", 1);
+        let mut common = 0;
+        while common < s_log.len() && common < f_log.len() && ev_sig(&s_log[common]) == ev_sig(&f_log[common]) {
+            common += 1;
+        }
+        if common > 0 && common < f_log.len() {
+            *distinct_cuts += 1;
+        }
+        let replay = format!("{{\"kind\":\"c13-warm\",{},\"job\":{},\"played\":[{},{}],\"budget\":{}}}", spec.json(), job, esc(&best), esc(&reply.to_string()), n);
+        if common < s_log.len() {
+            let e = &s_log[common];
+            out::violation(
+                "C13",
+                &format!("warm-table-write-from-unfinished-subtree-{}", e.site),
+                format!(
+                    "node budget {n}, cache filled by a depth-4 search two plies earlier ({} entries): {} cache write(s) that the uninterrupted search from the same table never makes at that point; first: site '{}' key {} entry [{}] at nodes={} (write #{common} of {}; the uninterrupted search has [{}] there), depth {depth} after {best} {reply} on {}",
+                    warm.len(),
+                    s_log.len() - common,
+                    e.site,
+                    key_u64(e.key),
+                    entry_text(&e.entry),
+                    e.nodes,
+                    s_log.len(),
+                    f_log.get(common).map_or("nothing more".to_string(), |x| entry_text(&x.entry)),
+                    spec.text()
+                ),
+                replay,
+            );
+        } else if let Some((i, j)) = provisional.iter().find(|(i, j)| *i < s_log.len() && s_log.len() <= *j) {
+            out::violation(
+                "C13",
+                &format!("warm-table-provisional-entry-left-behind-{}", f_log[*i].site),
+                format!("node budget {n} (warm table): the cache keeps [{}], replaced at the same depth by [{}] when the node is finished; depth {depth} after {best} {reply} on {}", entry_text(&f_log[*i].entry), entry_text(&f_log[*j].entry), spec.text()),
+                replay,
+            );
+        }
+        n += stride;
+    }
+    true
 }
 
 fn c13_compare(
